@@ -49,6 +49,7 @@ type Contract struct {
 	Ensures    []Clause
 	Assumes    []Clause
 	Invariants map[int][]Clause
+	Nilable    map[string]bool  // pointer parameters that callers may pass as nil: dereferencing needs a dominating test (class nil)
 	EveryIter  map[int][]string // loop ordinal -> callees of which every completed iteration passes a site
 	Modifies   []string
 	HasMod     bool // a modifies/pure clause was given
@@ -323,6 +324,13 @@ func (cs *ContractSet) loadFile(path string) error {
 			k, _ := strconv.Atoi(m[1])
 			c := Clause{Src: m[2], Line: loc}
 			cur.Invariants[k] = append(cur.Invariants[k], c)
+		case "nilable":
+			if cur.Nilable == nil {
+				cur.Nilable = map[string]bool{}
+			}
+			for _, n := range strings.Fields(rest) {
+				cur.Nilable[n] = true
+			}
 		case "everyiter":
 			m := reInv.FindStringSubmatch(rest)
 			if m == nil {
